@@ -6,6 +6,19 @@ Require Import KV.Parser.RoundTrip KV.Parser.RoundTrip2 KV.Parser.RoundTrip3 KV.
 Import ListNotations.
 Open Scope N_scope.
 
+Lemma letter_not_ws : forall b, letter b -> is_whitespace b = false.
+Proof.
+  intros b Hb. unfold letter, is_ascii_alpha, is_ascii_upper, is_ascii_lower in Hb.
+  assert (65 <= b <= 122) by lia. unfold is_whitespace, in_ranges, whitespace_ranges.
+  destruct (N.ltb_spec b 9); [lia|]. destruct (N.leb_spec b 13); [lia|]. destruct (N.ltb_spec b 32); [lia|].
+  destruct (N.leb_spec b 32); [lia|]. destruct (N.ltb_spec b 133); [reflexivity|lia].
+Qed.
+Lemma letter_facts : forall b, letter b -> b < 128 /\ is_whitespace b = false /\ 65 <= b.
+Proof. intros b Hb. split; [|split; [now apply letter_not_ws|]]; unfold letter, is_ascii_alpha, is_ascii_upper, is_ascii_lower in Hb; lia. Qed.
+
+Lemma letter_le : forall b, letter b -> b <= 122.
+Proof. intros b Lb. unfold letter, is_ascii_alpha, is_ascii_upper, is_ascii_lower in Lb. lia. Qed.
+
 Lemma atom_head_ne : forall a f rest c, wf_atom a f = true -> c < 128 -> is_whitespace c = false -> c <> 35 ->
   (c = 61 \/ c = 38 \/ c = 124 \/ c = 41) -> starts_with [c] (pr_atom a ++ rest) = false.
 Proof.
@@ -40,6 +53,115 @@ Proof.
   alt_skip (keyword_fail kw_true _ _ x 33 t eq_refl E ltac:(cbv; discriminate)).
   alt_skip (keyword_fail kw_false _ _ x 33 t eq_refl E ltac:(cbv; discriminate)).
   destruct (prefixed_name_err_head x 33 t Hv E ltac:(lia) ltac:(reflexivity) ltac:(lia)) as (? & ? & ? & ->). repeat eexists.
+Qed.
+
+(* a function call is not an operand either: `name (` is no variable, literal, number, IRI, boolean - and no prefixed name,
+   because the character after the name (`(`, `#` or an ASCII whitespace character) cannot occur in a prefix label *)
+Lemma letter_pn_chars : forall b, letter b -> pn_chars_base b = true /\ pn_chars b = true /\ b <> 46 /\ b <> 58 /\ b < 128.
+Proof.
+  intros b Lb. destruct (letter_facts b Lb) as (Hb & _ & H65). pose proof (letter_le b Lb). unfold letter in Lb.
+  unfold pn_chars, pn_chars_u, pn_chars_base. rewrite Lb. cbn [orb]. rewrite orb_true_r. cbn [orb]. repeat split; try reflexivity; lia.
+Qed.
+Lemma pn_prefix_loop_letters : forall cs fuel off prev c0 more, Forall letter cs -> c0 < 128 -> pn_chars c0 = false -> c0 <> 46 -> (length cs < fuel)%nat ->
+  exists pd, pn_prefix_loop fuel (cs ++ c0 :: more) off prev = (Some (off + length cs)%nat, pd).
+Proof.
+  induction cs as [|c cs IH]; intros fuel off prev c0 more Hl Hc0 Hp H46 Hf; (destruct fuel as [|f]; [cbn in Hf; lia|]); cbn [app pn_prefix_loop next_char].
+  - destruct (N.ltb_spec c0 128); [|lia]. destruct (N.eqb_spec c0 46); [congruence|]. rewrite Hp. rewrite Nat.add_0_r. eauto.
+  - inversion Hl as [|? ? Lc Hl']; subst. destruct (letter_pn_chars c Lc) as (_ & Hpc & Hn46 & _ & Hlt).
+    destruct (N.ltb_spec c 128); [|lia]. destruct (N.eqb_spec c 46); [congruence|]. rewrite Hpc. cbn [skipn].
+    destruct (IH f (off + 1)%nat false c0 more Hl' Hc0 Hp H46 ltac:(cbn in Hf; lia)) as (pd & E). rewrite E. exists pd. f_equal. f_equal. cbn [length]. lia.
+Qed.
+Lemma prefixed_name_err_run : forall b cs c0 rest, Forall letter (b :: cs) -> c0 < 128 -> pn_chars c0 = false -> c0 <> 46 -> c0 <> 58 ->
+  Valid ((b :: cs) ++ c0 :: rest) -> is_err (prefixed_name ((b :: cs) ++ c0 :: rest)).
+Proof.
+  intros b cs c0 rest Hl Hc0 Hp H46 H58 Hv. set (X := (b :: cs) ++ c0 :: rest) in *.
+  inversion Hl as [|? ? Lb Hl']; subst. destruct (letter_pn_chars b Lb) as (Hpb & _ & _ & _ & Hblt).
+  assert (EX : skip_ws X = X) by (apply skip_ws_fixed; [assumption|unfold X; cbn [app]; now apply letter_not_layout]).
+  unfold prefixed_name. rewrite EX. destruct (find_byte 58 X) as [colon|] eqn:Ef; [|repeat eexists].
+  destruct (find_byte_spec _ _ _ Ef) as [Hnth Hlt].
+  assert (Hcol : (length (b :: cs) < colon)%nat).
+  { destruct (Nat.lt_ge_cases (length (b :: cs)) colon) as [|Hge]; [assumption|exfalso]. unfold X in Hnth.
+    destruct (Nat.eq_dec colon (length (b :: cs))) as [->|Hne].
+    - rewrite app_nth2, Nat.sub_diag in Hnth by lia. cbn in Hnth. congruence.
+    - rewrite app_nth1 in Hnth by lia. assert (Hin : In (nth colon (b :: cs) 0) (b :: cs)) by (apply nth_In; lia).
+      rewrite Forall_forall in Hl. specialize (Hl _ Hin). rewrite Hnth in Hl. destruct (letter_pn_chars 58 Hl) as (_ & _ & _ & ? & _). congruence. }
+  destruct (ascii_byte_bnd X colon Hv Hlt ltac:(rewrite Hnth; lia)) as [B _].
+  rewrite slice_to_bnd by assumption. cbn [lift bind].
+  assert (Vp : Valid (firstn colon X)) by now apply bnd_firstn_valid.
+  assert (Ep : firstn colon X = (b :: cs) ++ c0 :: firstn (colon - length (b :: cs) - 1) rest).
+  { unfold X. rewrite firstn_app. rewrite (firstn_all2 (b :: cs)) by lia. f_equal.
+    destruct (colon - length (b :: cs))%nat as [|k] eqn:Ek; [lia|]. cbn [firstn]. f_equal. f_equal. lia. }
+  rewrite Ep in *. set (more := firstn (colon - length (b :: cs) - 1) rest) in *.
+  unfold invalid_pn_prefix. cbn [app next_char]. destruct (N.ltb_spec b 128); [|lia]. rewrite Hpb. cbn [negb].
+  cbn [app] in Vp. destruct (valid_ascii_head b (cs ++ c0 :: more) Vp Hblt) as (_ & B1 & Vt).
+  rewrite slice_from_bnd by assumption. cbn [lift bind skipn].
+  destruct (pn_prefix_loop_letters cs (length (cs ++ c0 :: more)) 0 false c0 more Hl' Hc0 Hp H46 ltac:(rewrite app_length; cbn [length]; lia)) as (pd & El).
+  rewrite El. cbn [Nat.add].
+  assert (B2 : Bnd (b :: cs ++ c0 :: more) (1 + length cs)).
+  { change (b :: cs ++ c0 :: more) with ((b :: cs) ++ c0 :: more).
+    destruct (ascii_byte_bnd ((b :: cs) ++ c0 :: more) (length (b :: cs)) Vp ltac:(rewrite app_length; cbn [length]; lia)
+                ltac:(rewrite app_nth2, Nat.sub_diag by lia; cbn; lia)) as [B2 _]. exact B2. }
+  rewrite slice_from_bnd by assumption. cbn [lift bind]. repeat eexists.
+Qed.
+
+Lemma ascii_ws_cases : forall b, b < 128 -> is_whitespace b = true -> 9 <= b <= 13 \/ b = 32.
+Proof.
+  intros b Hb H. destruct (in_ranges_spec _ _ H) as (lo & hi & Hr & Hbd). unfold whitespace_ranges in Hr. cbn [In] in Hr.
+  repeat (destruct Hr as [Hr|Hr]; [injection Hr as <- <-; lia|]). destruct Hr.
+Qed.
+Lemma lay_head_cases : forall l b m, lay_okb l = true -> lay_bytes l = b :: m -> b < 128 -> (9 <= b <= 13 \/ b = 32) \/ b = 35.
+Proof.
+  intros [|it l'] b m H E Hb; [discriminate|]. cbn [lay_okb forallb lay_bytes flat_map] in *. apply andb_true_iff in H. destruct H as [Hit _].
+  destruct it as [c|body e]; cbn [litem_okb litem_bytes] in *.
+  - apply andb_true_iff in Hit. destruct Hit as [Hs Hw]. destruct (encode_char_ascii_head c _ b m E Hb) as [-> _]. left. now apply ascii_ws_cases.
+  - cbn [app] in E. injection E as <- _. now right.
+Qed.
+
+Lemma operand_call_err : forall fn kwtxt lp x, kwcaseb (fname_kw fn) kwtxt = true -> lay_okb lp = true -> lay_ascii_head lp = true ->
+  Valid (kwtxt ++ lay_bytes lp ++ 40 :: x) -> is_err (filter_operand_token (kwtxt ++ lay_bytes lp ++ 40 :: x)).
+Proof.
+  intros fn kwtxt lp x Hk Hlp Hah Hv. set (X := kwtxt ++ lay_bytes lp ++ 40 :: x) in *.
+  assert (Hk' := Hk). apply kwcase_b in Hk'.
+  destruct (kwcase_head _ _ Hk' ltac:(destruct fn; discriminate)) as (k & kw' & b & t & Ekw & Etxt & Hkb).
+  assert (Lall : Forall letter kwtxt).
+  { assert (Lkw : Forall letter (fname_kw fn)) by (destruct fn; repeat constructor).
+    clear - Hk' Lkw. induction Hk' as [|k0 b0 kw0 t0 Hb0 _ IH]; [constructor|]. inversion Lkw; subst. constructor; [|now apply IH].
+    unfold letter, is_ascii_alpha, is_ascii_upper, is_ascii_lower, ascii_lower, is_ascii_upper in *.
+    destruct ((65 <=? b0) && (b0 <=? 90)) eqn:E1; destruct ((65 <=? k0) && (k0 <=? 90)) eqn:E2; lia. }
+  assert (Lb : letter b) by (rewrite Etxt in Lall; now inversion Lall).
+  destruct (letter_facts b Lb) as (Hb & Hw & H65). pose proof (letter_le b Lb) as H122.
+  assert (EX : skip_ws X = b :: t ++ lay_bytes lp ++ 40 :: x).
+  { unfold X. rewrite Etxt. cbn [app]. apply skip_ws_fixed; [unfold X in Hv; now rewrite Etxt in Hv|now apply letter_not_layout]. }
+  assert (VX : Valid (b :: t ++ lay_bytes lp ++ 40 :: x)) by (unfold X in Hv; now rewrite Etxt in Hv).
+  (* the character after the name *)
+  assert (Next : exists c0 more, lay_bytes lp ++ 40 :: x = c0 :: more /\ c0 < 128 /\ pn_chars c0 = false /\ c0 <> 46 /\ c0 <> 58).
+  { unfold lay_ascii_head in Hah. destruct (lay_bytes lp) as [|c0 m] eqn:El.
+    - exists 40, x. repeat split; try lia; reflexivity.
+    - exists c0, (m ++ 40 :: x). assert (Hc0 : c0 < 128) by lia. split; [reflexivity|]. split; [assumption|].
+      destruct (lay_head_cases lp c0 m Hlp El Hc0) as [[Hr|Hr]|Hr].
+      + assert (Hc : c0 = 9 \/ c0 = 10 \/ c0 = 11 \/ c0 = 12 \/ c0 = 13) by lia. destruct Hc as [->|[->|[->|[->| ->]]]]; repeat split; try lia; reflexivity.
+      + subst c0. repeat split; try lia; reflexivity.
+      + subst c0. repeat split; try lia; reflexivity. }
+  destruct Next as (c0 & more & En & Hc0 & Hpc & H46 & H58).
+  assert (Kt : is_err (keyword kw_true X)).
+  { destruct fn; cbn [fname_kw] in Ekw; injection Ekw as <- <-;
+      try (apply (keyword_fail kw_true _ _ X b _ eq_refl EX); rewrite Hkb; cbv; discriminate).
+    (* TRIPLE: t, r match; the third letter is i, not u *)
+    apply (keyword_free_err kw_true X _ ltac:(kw_a) VX EX).
+    rewrite Etxt in Hk'. inversion Hk' as [|? ? ? ? _ Hk2]; subst. inversion Hk2 as [|? b2 ? t2 _ Hk3]; subst. inversion Hk3 as [|? b3 ? t3 Hb3 _]; subst.
+    assert (E3 : (ascii_lower b3 =? ascii_lower 117) = false) by (apply N.eqb_neq; rewrite Hb3; cbv; discriminate).
+    unfold kw_hitb. change kw_true with [116; 114; 117; 101]. cbn [app prefix_nocase]. rewrite E3. now rewrite ?andb_false_r, ?andb_false_l. }
+  assert (Kf : is_err (keyword kw_false X)).
+  { apply (keyword_fail kw_false _ _ X b _ eq_refl EX). rewrite Hkb. destruct fn; cbn [fname_kw] in Ekw; injection Ekw as <- _; cbv; discriminate. }
+  unfold filter_operand_token, alt. cbn [alt_from].
+  alt_skip (variable_err_b _ _ _ VX EX ltac:(lia) ltac:(lia)).
+  alt_skip (quoted_literal_err _ _ _ EX ltac:(lia) ltac:(lia)).
+  alt_skip (numeric_err _ _ _ EX ltac:(lia) ltac:(lia) ltac:(lia) ltac:(unfold is_ascii_digit; lia)).
+  alt_skip (iri_err _ _ _ EX ltac:(lia)).
+  destruct Kt as (? & ? & ? & ->). cbn [alt_from]. destruct Kf as (? & ? & ? & ->). cbn [alt_from].
+  assert (Pn : is_err (prefixed_name X)).
+  { unfold X. rewrite En, Etxt. rewrite Etxt in Lall. apply prefixed_name_err_run; try assumption. unfold X in Hv. now rewrite En, Etxt in Hv. }
+  destruct Pn as (? & ? & ? & ->). repeat eexists.
 Qed.
 
 Definition OPS : list N := [33; 61; 62; 60; 38; 124].
@@ -93,8 +215,33 @@ Proof.
     rewrite Esk. rewrite strip1_none by lia.
     assert (Eid : skip_ws (33 :: pr_atom a ++ F) = 33 :: pr_atom a ++ F) by (apply skip_ws_fixed; [assumption|apply ascii_head_not_layout; [lia|reflexivity|lia]]).
     destruct (operand_bang_err _ _ Eid Va) as (? & ? & ? & ->). cbn [bind]. repeat eexists.
-  - (* function call: excluded *)
-    intros kl fn kwtxt lp a1 amore rp g F _ _ Hh. cbn [hd_atom] in Hh. discriminate.
+  - (* function call: no operand starts with a function name followed by `(` *)
+    intros kl fn kwtxt lp a1 amore rp g F Hf H Hh HF Ha. cbn [sz_atom wf_atom pr_atom pure_atom hd_atom] in *.
+    destruct g as [|[|[|g3]]]; try lia.
+    pose proof (proj1 atom_valid_mut (AtCall kl fn kwtxt lp a1 amore rp) F H) as Vall. cbn [pr_atom] in Vall.
+    repeat (apply andb_true_iff in H; destruct H as [H ?]).
+    match goal with X : kwcaseb _ _ = true |- _ => rename X into Hk end.
+    match goal with X : lay_okb lp = true |- _ => rename X into Hlp end.
+    set (Y := pr_o a1 ++ pr_oms amore ++ lay_bytes rp ++ 41 :: F).
+    assert (E0 : (lay_bytes kl ++ kwtxt ++ lay_bytes lp ++ 40 :: pr_o a1 ++ pr_oms amore ++ lay_bytes rp ++ [41]) ++ F = lay_bytes kl ++ kwtxt ++ lay_bytes lp ++ 40 :: Y).
+    { unfold Y. repeat first [rewrite <- app_assoc | progress cbn [app]]. reflexivity. }
+    assert (VX : Valid (kwtxt ++ lay_bytes lp ++ 40 :: Y)).
+    { assert (V : Valid ((lay_bytes kl ++ kwtxt ++ lay_bytes lp ++ 40 :: pr_o a1 ++ pr_oms amore ++ lay_bytes rp ++ [41]) ++ F)) by now apply valid_app.
+      rewrite E0 in V. assert (Hk' := Hk). apply kwcase_b in Hk'.
+      destruct (kwcase_head _ _ Hk' ltac:(destruct fn; discriminate)) as (k & kw' & b & t & Ekw & Etxt & Hkb).
+      assert (Lb : letter b) by (rewrite Etxt in Hk'; eapply fname_letter; eassumption). destruct (letter_facts b Lb) as (Hb & _ & _).
+      rewrite Etxt in *. cbn [app] in *. now destruct (valid_split_ascii _ _ _ V Hb) as (_ & ? & _). }
+    left. rewrite E0. cbn [f_arith f_product f_operand].
+    assert (Esk : skip_ws (lay_bytes kl ++ kwtxt ++ lay_bytes lp ++ 40 :: Y) = kwtxt ++ lay_bytes lp ++ 40 :: Y).
+    { apply skip_ws_closed; [now apply lay_ok|assumption|]. assert (Hk' := Hk). apply kwcase_b in Hk'.
+      destruct (kwcase_head _ _ Hk' ltac:(destruct fn; discriminate)) as (k & kw' & b & t & Ekw & Etxt & Hkb).
+      assert (Lb : letter b) by (rewrite Etxt in Hk'; eapply fname_letter; eassumption). rewrite Etxt. cbn [app]. now apply letter_not_layout. }
+    rewrite Esk.
+    assert (E40 : strip_prefix [40] (kwtxt ++ lay_bytes lp ++ 40 :: Y) = None).
+    { assert (Hk' := Hk). apply kwcase_b in Hk'. destruct (kwcase_head _ _ Hk' ltac:(destruct fn; discriminate)) as (k & kw' & b & t & Ekw & Etxt & Hkb).
+      assert (Lb : letter b) by (rewrite Etxt in Hk'; eapply fname_letter; eassumption). destruct (letter_facts b Lb) as (_ & _ & H65).
+      rewrite Etxt. cbn [app]. apply strip1_none. lia. }
+    rewrite E40. destruct (operand_call_err fn kwtxt lp Y Hk Hlp Hh VX) as (? & ? & ? & ->). cbn [bind]. repeat eexists.
   - (* comparison: the left side is read, then an operator follows *)
     intros s1 ol op s2 g F Hf H _ HF Ha. cbn [sz_atom wf_atom pr_atom pure_atom] in *.
     repeat (apply andb_true_iff in H; destruct H as [H ?]).
